@@ -645,7 +645,10 @@ def check_C19(tier, seed):
                 rp.coverage["tuples"][cfgs] = 1
                 rep = {"engine": "layout", "replay_cmd": res["cmd"], "config": cfgs, "observed": d}
                 D = d["D"]
-                if d["sD1"] <= 64:
+                if D < 1:
+                    rp.add_violation("layout|C19|default.capacity-zero|%s,D=%d" % (cfgs, D),
+                                     "%s: default inline capacity is %d; it must be the largest count that fits, or 1 when not even one element fits" % (cfgs, D), rep)
+                elif d["sD1"] <= 64:
                     rp.add_violation("layout|C19|default.more-would-fit|%s,D=%d" % (cfgs, D),
                                      "%s: default inline capacity %d gives a %d-byte object, but %d elements also fit in 64 bytes (sizeof = %d)" % (cfgs, D, d["sD"], D + 1, d["sD1"]), rep)
                 elif d["sD"] > 64 and D > 1:
